@@ -70,6 +70,12 @@ func c16Check(c c16Case) vfResult {
 	var r vfResult
 	vfJournal("C16", "bombs", c)
 	x := c16Build(c)
+	if c.Limit == 1 || c.Limit == 2 { // a large limit that truncates: the whole input, or its first half
+		c.Limit = uint32(len(x) / int(c.Limit))
+		if c.Limit == 0 {
+			c.Limit = 1
+		}
+	}
 	if c.Primer != nil && vfReplayMode() {
 		// no garbage collection between primer and bomb: a GC would empty the parser pool and
 		// with it the state the primer left behind
@@ -88,7 +94,7 @@ func c16Check(c c16Case) vfResult {
 	if c.Depth >= 1000000 && isJSON {
 		r.Err = fmt.Errorf("a nesting bomb of depth %d (shape %d, closed=%v, limit %d, via %s) is reported as JSON", c.Depth, c.Shape, c.Closed, c.Limit, c.Via)
 	}
-	if c.Depth <= 4096 && c.Closed && c.Via != "geo" && !isJSON && (c.Limit == 0 || int64(c.Limit) > int64(len(x))) {
+	if c.Depth <= 4096 && c.Closed && c.Via != "geo" && !isJSON && (c.Limit == 0 || int64(c.Limit) >= int64(len(x))) {
 		r.Err = fmt.Errorf("properly closed nesting of depth %d (shape %d, pad %d, via %s) is not reported as JSON", c.Depth, c.Shape, c.Pad, c.Via)
 	}
 	r.Nontrivial = c.Depth > 4096
@@ -124,8 +130,8 @@ func TestVerif_C16(t *testing.T) {
 	for _, d := range depths {
 		for shape := 0; shape < 3; shape++ {
 			for _, closed := range []bool{true, false} {
-				for _, lim := range []uint32{0, 0xffffffff} {
-					for pad := 0; pad < 3; pad++ {
+				for _, lim := range []uint32{0, 0xffffffff, 1} { // 1 stands for "limit = len" (a large limit that truncates)
+					for _, pad := range []int{0, 1, 3} {
 						if d >= 5000000 && (pad > 0 || (shape == 2)) {
 							continue
 						}
